@@ -121,6 +121,7 @@ class System:
               "node": [z3.BitVec(f"node_{t.name}_{s}", NW) for t in self.threads],
               "call": [z3.BitVec(f"call_{t.name}_{s}", NW) for t in self.threads],
               "gen": {n: z3.BitVec(f"gen_{n}_{s}", SW) for n in self.notifies},
+              "permit": {n: z3.BitVec(f"permit_{n}_{s}", SW) for n in self.notifies},
               "underflow": z3.Bool(f"underflow_{s}")}
         return st
 
@@ -137,6 +138,7 @@ class System:
         S.add(st0["underflow"] == False)
         for n in self.notifies:
             S.add(st0["gen"][n] == 0)
+            S.add(st0["permit"][n] == 0)
         self.variant = []
         for ti, t in enumerate(self.threads):
             S.add(st0["call"][ti] == 0)
@@ -190,7 +192,7 @@ class System:
                 for guard, ch, _ in n.children:
                     # the transition n -> ch executes ch's operation (or finishes the call if ch is a leaf)
                     g = t.subst(guard, ch.names if not ch.leaf else ch.names)
-                    upd = {"val": {}, "len": {}, "buf": {c: {} for c in self.chans}, "gen": {}, "node": None, "call": None, "underflow": None}
+                    upd = {"val": {}, "len": {}, "buf": {c: {} for c in self.chans}, "gen": {}, "permit": {}, "node": None, "call": None, "underflow": None}
                     en = z3.BoolVal(True)
                     extra = []
                     if ch.leaf:
@@ -250,8 +252,13 @@ class System:
                             extra.append(R == R64(cur["gen"][tg]))
                         elif op == "notify_all":
                             upd["gen"][tg] = cur["gen"][tg] + BV(1)
+                        elif op == "notify_one":
+                            # tokio: wakes one waiting task, or stores a single permit for the next notified().await
+                            upd["permit"][tg] = BV(1)
                         elif op == "notify_await":
-                            en = z3.UGT(cur["gen"][tg], BV(arg))
+                            by_all = z3.UGT(cur["gen"][tg], BV(arg))
+                            en = z3.Or(by_all, cur["permit"][tg] == 1)
+                            upd["permit"][tg] = z3.If(by_all, cur["permit"][tg], BV(0))
                         elif op == "spsc_len":
                             extra.append(R == R64(cur["len"][tg]))
                         else:
@@ -285,6 +292,7 @@ class System:
         S.add(nxt["underflow"] == fold(lambda u: u["underflow"], cur["underflow"]))
         for n_ in self.notifies:
             S.add(nxt["gen"][n_] == fold(lambda u, n_=n_: u["gen"].get(n_), cur["gen"][n_]))
+            S.add(nxt["permit"][n_] == fold(lambda u, n_=n_: u["permit"].get(n_), cur["permit"][n_]))
         for ti, t in enumerate(self.threads):
             e_node, e_call = cur["node"][ti], cur["call"][ti]
             for tj, n, ch, cond, upd, _ in cases:
